@@ -212,6 +212,41 @@ def check_handler(chk, repo, f, t, h, rid, expect_slot=None):
            key=key + '::record', path=badp.describe(rel) if badp and ok_raise else None, fn=f.qual)
 
 
+def pool_copy_before_write(chk, repo, rid):
+    """shared (C07.c, C01.j): the per-fusion pool of the wrapper is a copy, and the donor series is copied before it is truncated"""
+    w = repo.func(WRAPPER)
+    chk.uses(w)
+    # copy-before-write on variant_pool
+    vp_writes = [wr for wr in G.writes_in(w.node.body) if wr[0] == 'variant_pool' and wr[1] in ('attr', 'item')]
+    for wr in vp_writes:
+        st = wr[2]
+        tgt = unparse(st.targets[0])
+        ok = True
+        detail = ''
+        if tgt.startswith('variant_pool[') and tgt.endswith(']'):
+            ok = unparse(st.value).startswith('copy.copy(')
+            detail = f"'{norm_stmt(st)}' stores a shared series into the pool copy without copying it"
+        else:
+            # attribute write on variant_pool[k].x : must be preceded in the block by variant_pool[k] = copy.copy(...)
+            blk = None
+            for anc in repo.ancestors(st):
+                for fld in ('body', 'orelse'):
+                    b = getattr(anc, fld, None)
+                    if isinstance(b, list) and st in b:
+                        blk = b
+                if blk:
+                    break
+            sub = tgt.rsplit('.', 1)[0]
+            prior = [s for s in blk[:blk.index(st)] if isinstance(s, ast.Assign) and unparse(s.targets[0]) == sub
+                     and unparse(s.value).startswith('copy.copy(')]
+            pool_copy = [s for s in blk[:blk.index(st)] if isinstance(s, ast.Assign) and unparse(s.targets[0]) == 'variant_pool'
+                         and unparse(s.value) == 'copy.copy(pool)']
+            ok = bool(prior) and bool(pool_copy)
+            detail = f"'{norm_stmt(st)}' writes through the shared pool (no copy.copy of the pool and of the series before it)"
+        chk.ob(rid, f"copy-before-write: {norm_stmt(st)[:60]}", repo.loc(w, st), ok, detail,
+               key=f"{WRAPPER}::copy-before-write::{tgt}", fn=w.qual)
+
+
 def run(chk, repo):
     chk.clauses = [
         'C07.a no name bound only in a per-unit try body is read after a caught failure (definite assignment)',
@@ -331,35 +366,7 @@ def run(chk, repo):
     chk.ob('C07.c', 'wrapper never writes its shared inputs', w.where, not bad,
            f"shared input mutated in the wrapper (visible to later units / retries): {bad}",
            key=f"{WRAPPER}::shared-writes", fn=w.qual)
-    # copy-before-write on variant_pool
-    vp_writes = [wr for wr in G.writes_in(w.node.body) if wr[0] == 'variant_pool' and wr[1] in ('attr', 'item')]
-    for wr in vp_writes:
-        st = wr[2]
-        tgt = unparse(st.targets[0])
-        ok = True
-        detail = ''
-        if tgt.startswith('variant_pool[') and tgt.endswith(']'):
-            ok = unparse(st.value).startswith('copy.copy(')
-            detail = f"'{norm_stmt(st)}' stores a shared series into the pool copy without copying it"
-        else:
-            # attribute write on variant_pool[k].x : must be preceded in the block by variant_pool[k] = copy.copy(...)
-            blk = None
-            for anc in repo.ancestors(st):
-                for fld in ('body', 'orelse'):
-                    b = getattr(anc, fld, None)
-                    if isinstance(b, list) and st in b:
-                        blk = b
-                if blk:
-                    break
-            sub = tgt.rsplit('.', 1)[0]
-            prior = [s for s in blk[:blk.index(st)] if isinstance(s, ast.Assign) and unparse(s.targets[0]) == sub
-                     and unparse(s.value).startswith('copy.copy(')]
-            pool_copy = [s for s in blk[:blk.index(st)] if isinstance(s, ast.Assign) and unparse(s.targets[0]) == 'variant_pool'
-                         and unparse(s.value) == 'copy.copy(pool)']
-            ok = bool(prior) and bool(pool_copy)
-            detail = f"'{norm_stmt(st)}' writes through the shared pool (no copy.copy of the pool and of the series before it)"
-        chk.ob('C07.c', f"copy-before-write: {norm_stmt(st)[:60]}", repo.loc(w, st), ok, detail,
-               key=f"{WRAPPER}::copy-before-write::{tgt}", fn=w.qual)
+    pool_copy_before_write(chk, repo, 'C07.c')
     # denylist.update guarded by main_peptides
     for c in G.find_calls(w.node, 'update'):
         if unparse(c.func.value) == 'denylist':
